@@ -335,6 +335,9 @@ def explore_case(hmod, case, opts):
             CTX.decisions = list(prefix)
             CTX.pos = 0
             CTX.model = None
+            CTX.uses_fp = False
+            CTX.prefix_model = model
+            CTX.prefix_len = len(prefix) if prefix else -1
             CTX.inputs = {}
             CTX.nvars = 0
             CTX.tags = {}
